@@ -8,6 +8,20 @@ NOTES = {
  'c12-3': 'missed by the first C12 slice; caught after divide / remainder cases became systematic over sizes and the extreme operands',
  'c01-1': 'missed by the first C01 slice (only the default 9600 baud option); caught after the end-to-end generator varies the saved baud option',
  'c01-2': 'missed by the first C01 slice; caught after the scroll scenario (130 line feeds) was added',
+ 'c12-5': 'round 2; missed at first; caught after the opcode x register-descriptor sweep was added',
+ 'c12-6': 'round 2; missed at first; caught after DUART register-access histories were added to the hostile cases',
+ 'c19-5': 'round 2; missed at first; caught after the key-burst scenario (FIFO and holding register full before the firmware reads)',
+ 'c04-6': 'round 2; missed at first (pc-advance cases covered 9 opcodes); caught after every opcode is stepped once',
+ 'c07-4': 'round 2; missed at first; caught after the interrupted PSW also varies the bits around the priority field',
+ 'c07-5': 'round 2; missed at first; caught after handler blocks with block-move lists of 1-3 entries were added',
+ 'c11-4': 'round 2; missed at first; caught after overrunning host loads (lx) followed by guest ROM writes were added',
+ 'c11-5': 'round 2; missed at first; caught after bus reads are made with every access code',
+ 'c13-5': 'round 2; missed at first; caught after stacks that are word- but not 8-byte-aligned were added',
+ 'c13-6': 'round 2; missed at first; caught after returns / pops with the stack pointer at the bottom of RAM were added',
+ 'c15-5': 'round 2; missed at first; caught after long in-window write runs (counts around 2^16) were added',
+ 'c16-5': 'round 2; missed at first; caught after constant NVRAM images (all zero / all ones) were added',
+ 'c17-4': 'round 2; missed at first; caught after loop-back pacing cases were added',
+ 'c18-4': 'round 2; missed at first; caught after PSW and unwritable destinations were added to the 2-/3-operand pairs',
  'c03-3': 'missed by the first C03 slice (only two-operand probes); caught after expanded types are spread over 3- and 4-operand instructions',
 }
 for f in sorted(os.listdir('/var/tmp/mutres')):
